@@ -107,6 +107,15 @@ ENGINES["l2frame"] = dict(drv="l2frame", starts=("l2after",), trivial=r"=> unpar
     branches=["l2.chaddr6", "l2.chaddr-other", "l2.yiaddr-zero", "l2.yiaddr-set", "l2.frame", "l2.no-frame", "l2.after-failed-send"])
 ENGINES["chain"] = dict(drv="chain", starts=("ccfg",), trivial=r"=> drop$", branches=["chain.cfg4.ok", "chain.cfg6.ok", "chain.drop", "chain.send"])
 ENGINES["allocc"] = dict(drv="alloc", starts=("new6", "new4"), trivial=r"$^", branches=["batch", "arace", "afrace", "achurn", "ahchurn"], noshrink=True)
+ENGINES["bits"] = dict(
+    drv="bits", starts=("new",),
+    trivial=r"^(len 0 => )|(test \d+ => false$)",
+    branches=["bits.new", "bits.new.empty", "bits.new.partial-word", "bits.new.whole-words",
+              "bits.set", "bits.set.inside", "bits.set.extend-in-word", "bits.set.extend-words",
+              "bits.clear", "bits.test", "bits.len", "bits.beyond-length", "bits.word-boundary",
+              "bits.nextclear", "bits.nextclear.empty", "bits.nextclear.full", "bits.nextclear.none-after",
+              "bits.nextclear.first-word", "bits.nextclear.later-word"],
+)
 ENGINES["rangec"] = dict(drv="range", starts=("rsetup",), trivial=r"$^", branches=["batch"], noshrink=True)
 ENGINES["prefixc"] = dict(drv="prefix", starts=("psetup",), trivial=r"$^", branches=["batch", "prefix.prace"], noshrink=True)
 ENGINES["dispatch4c"] = dict(drv="dispatch4", starts=(), trivial=r"=> U ; drop ; inv -$", branches=[])
@@ -119,7 +128,7 @@ ENGINES["plug"] = dict(drv="plug", starts=("pcfg",), trivial=r"^pcfg .* ; (err|u
         [("dns","4"),("dns","6"),("router","4"),("mtu","4"),("netmask","4"),("lease_time","4"),("searchdomains","4"),("searchdomains","6"),
          ("staticroute","4"),("ipv6only","4"),("autoconfigure","4"),("nbp","4"),("nbp","6"),("sleep","4"),("sleep","6"),("server_id","4"),("server_id","6")]])
 
-TB_BITSET = "github.com/bits-and-blooms/bitset (New/Test/Set/Clear/NextClear) modelled as List Bool, not verified"
+TB_BITSET = "github.com/bits-and-blooms/bitset (New/Test/Set/Clear/NextClear): the allocator models use a List Bool; a word-level model of the library (Model/BitsWords.lean) is proved to refine it (BITSW_*) and is compared with the real library on every run of C04-C07 (engine bits); the library's Go source itself is not verified"
 TB_STD = "Go stdlib net/bytes/encoding/binary/math/bits taken at their documented Nat-level meaning"
 
 ALLOC_THEOREMS = lambda k: ["%s_alloc6" % k, "%s_alloc4" % k]
@@ -278,7 +287,7 @@ PROPS = {
         rule="128-bit operands biased to carry/borrow patterns, every p in 0..128; executed on allocators.Offset/AddPrefixes and compared with the Lean model and the Nat-level spec; trivial = Offset of equal/adjacent addresses giving 0 or AddPrefixes with n=0; distinct = distinct (op,result) lines",
     ),
     "C04": dict(
-        engines=[("alloc6", 6000, 120000), ("alloc4", 6000, 120000), ("allocc", 2000, 30000)],
+        engines=[("alloc6", 6000, 120000), ("alloc4", 6000, 120000), ("allocc", 2000, 30000), ("bits", 20000, 200000)],
         theorems=["C04_alloc6", "C04_alloc4"],
         modules=["CoreDhcp.Props.C04"],
         facts=["F1"],
@@ -287,7 +296,7 @@ PROPS = {
                      "bitset.New returned a set of the requested length (pools up to 2^24 blocks are modelled in the driver)"],
     ),
     "C05": dict(
-        engines=[("alloc6", 6000, 120000), ("alloc4", 6000, 120000)],
+        engines=[("alloc6", 6000, 120000), ("alloc4", 6000, 120000), ("bits", 20000, 200000)],
         theorems=["C05_alloc6", "C05_alloc4", "C05_noaddr_unchanged6", "C05_noaddr_unchanged4",
                   "C05_progress6", "C05_progress4"],
         modules=["CoreDhcp.Props.C05"],
@@ -295,14 +304,14 @@ PROPS = {
         assumptions=["bitset.New returned a set of the requested length (pools up to 2^24 blocks are modelled in the driver; the full IPv4 range is exercised by a direct history in the harness)"],
     ),
     "C06": dict(
-        engines=[("alloc6", 6000, 120000), ("alloc4", 6000, 120000), ("allocc", 1000, 15000)],
+        engines=[("alloc6", 6000, 120000), ("alloc4", 6000, 120000), ("allocc", 1000, 15000), ("bits", 20000, 200000)],
         theorems=["C06_alloc6", "C06_alloc4", "C06_error_unchanged6", "C06_error_unchanged4", "C06_D2_prefix_refuted"],
         modules=["CoreDhcp.Props.C06"],
         trusted_base=[TB_BITSET, TB_STD],
         assumptions=["Free is given a well-formed prefix no shorter than the allocation size (the property's quantifier); shorter prefixes are executed and logged as drift only"],
     ),
     "C07": dict(
-        engines=[("alloc6", 6000, 120000), ("alloc4", 6000, 120000), ("allocc", 1000, 15000)],
+        engines=[("alloc6", 6000, 120000), ("alloc4", 6000, 120000), ("allocc", 1000, 15000), ("bits", 20000, 200000)],
         theorems=["C07_alloc6", "C07_alloc4"],
         modules=["CoreDhcp.Props.C07"],
         trusted_base=[TB_BITSET, TB_STD],
@@ -313,6 +322,7 @@ PROPS = {
 
 # how each engine generates cases and what makes a history non-trivial (for the evidence files)
 RULES = {
+    "bits": "random New/Set/Clear/Test/NextClear/Len histories on the real bitset.BitSet (lengths 0, 1, 63, 64, 65, 127, 128, 130, 1000; indexes around word boundaries, the length and beyond it - extension; sets filled completely or but for one bit): the word-level model (Model/BitsWords.lean) and the list model the allocator models use are both stepped along",
     "ipcalc": "128-bit operands biased to carry/borrow patterns, every p in 0..128, n near 2^k / 2^unit / 2^64-1; one case per line; trivial = Offset giving 0 or AddPrefixes with n=0",
     "alloc6": "histories (one pool each) of Allocate with hints {none, length-only, in-pool free/taken anywhere inside the block, held, freed earlier, outside below/above, IPv4 forms, odd masks} and Free of {outstanding, sub-prefix, freed before, any block, k blocks below the base, above the end, random}; pools on both sides of the 64-bit boundary; trivial = only hint-less successful allocations",
     "alloc4": "histories (one range each; sizes 1,2,3,63,64,65,127..200, ranges ending at 255.255.255.255 / starting at 0.0.0.0, the full range judged by the monitors alone) of Allocate with hints {none, in range (4- and 16-byte forms), freed earlier, outside, IPv6} and Free likewise; trivial = only hint-less successful allocations",
@@ -351,6 +361,15 @@ GEN_THEOREMS = {
     "C07": ("CoreDhcp.Props.GenAlloc4", ["GEN_a4_allocate_eq", "GEN_a4_toOffset_eq"]),
 }
 GEN_THEOREMS_MORE = [
+    # the bitset library at word level (Model/BitsWords.lean): refinement to the list model the allocator models use; tied by engine bits
+    ("C04", "CoreDhcp.Props.BitsWords", ['WBits.BITSW_wf_new', 'WBits.BITSW_wf_set', 'WBits.BITSW_wf_clear', 'WBits.BITSW_test_refines', 'WBits.BITSW_set_refines', 'WBits.BITSW_clear_refines', 'WBits.BITSW_run_refines']),
+    ("C05", "CoreDhcp.Props.BitsWords", ['WBits.BITSW_new_refines', 'WBits.BITSW_len_refines', 'WBits.BITSW_nextClear_refines', 'WBits.BITSW_nextClearFrom_zero', 'WBits.BITSW_nextClear0_refines', 'WBits.BITSW_nextClear_least']),
+    ("C06", "CoreDhcp.Props.BitsWords", ['WBits.BITSW_test_refines', 'WBits.BITSW_clear_refines', 'WBits.BITSW_wf_clear']),
+    ("C07", "CoreDhcp.Props.BitsWords", ['WBits.BITSW_test_refines', 'WBits.BITSW_set_refines', 'WBits.BITSW_nextClear_refines']),
+    # histories of datagrams through the whole server with a lease plugin in the chain (Model/ServerState.lean)
+    ("C02", "CoreDhcp.Props.ServerState", ['SYSST_range_steps_are_handles', 'SYSST_C02_history', 'SYSST_C02_history_explicit', 'SYSST_reply_is_event', 'SYSST_sent_replies_are_events', 'SYSST_C02_wire', 'SYSST_unreached_keeps_state', 'SYSST_junk_keeps_state', 'SYSST_progress']),
+    ("C08", "CoreDhcp.Props.ServerState", ['SYSST_prefix_steps_are_handles', 'SYSST_C08_history', 'SYSST_reply_is_event6', 'SYSST_unreached_keeps_state6']),
+    ("C09", "CoreDhcp.Props.ServerState", ['SYSST_prefix_steps_are_handles', 'SYSST_C08_history']),
     # the front of config.Load regenerated (unit configload): a fresh viper instance, always decoded as YAML, the path of -c verbatim, the search directories in order
     ("C18", "CoreDhcp.Props.GenConfigLoad", ['GEN_configload_load_eq', 'GEN_configload_tail_eq', 'CONFIGLOAD_asked', 'CONFIGLOAD_type_is_yaml_always', 'CONFIGLOAD_explicit_path_verbatim', 'CONFIGLOAD_search_order', 'CONFIGLOAD_reads_once_with_these_settings', 'CONFIGLOAD_read_error_aborts', 'CONFIGLOAD_parses_what_was_read', 'CONFIGLOAD_fresh_instance', 'CONFIGLOAD_tail_is_unit_config', 'CONFIGLOAD_load_is_C18_model', 'CONFIGLOAD_C18', 'CONFIGLOAD_never_panics', 'CONFIGLOAD_main_reads_conf_flag']),
     # the program as one function (Model/Server.lean): main, config.Load, LoadPlugins, server.Start and the listeners composed
